@@ -95,10 +95,61 @@ func c06Representatives() []rune {
 	return c06Reps
 }
 
+// c06Boundaries: lo-1, lo, hi, hi+1 (and the stride neighbours) of every range of the tables the segmenter reads
+// directly with unicode.Is (the class lookups have their boundary pool in C20): inputs for the comparison of
+// obs_of_rune (regenerated tables, evaluated in Coq) with c06Obs.
+func c06Boundaries() []rune {
+	seen := map[rune]bool{}
+	var out []rune
+	add := func(x int64) {
+		if x < 0 || x > 0x10FFFF || seen[rune(x)] {
+			return
+		}
+		seen[rune(x)] = true
+		out = append(out, rune(x))
+	}
+	rng := func(lo, hi, st int64) {
+		add(lo - 1)
+		add(lo)
+		add(hi)
+		add(hi + 1)
+		if st > 1 {
+			add(lo + 1)
+			add(lo + st)
+			add(hi - 1)
+		}
+	}
+	for _, t := range []*unicode.RangeTable{ucd.Extended_Pictographic, ucd.LargeEastAsian, ucd.Word, ucd.BreakZWJ, unicode.Mn, unicode.Mc} {
+		for _, x := range t.R16 {
+			rng(int64(x.Lo), int64(x.Hi), int64(x.Stride))
+		}
+		for _, x := range t.R32 {
+			rng(int64(x.Lo), int64(x.Hi), int64(x.Stride))
+		}
+	}
+	return out
+}
+
+// c06RandomRune: any int32 can be stored in a []rune; mostly code points, BMP-biased
+func c06RandomRune(r *vh.Rand) rune {
+	switch r.Intn(16) {
+	case 0:
+		return rune(int32(r.Uint32())) // any int32, negative ones included
+	case 1:
+		return rune(0x110000 + r.Intn(0x1000))
+	case 2, 3, 4, 5:
+		return rune(r.Intn(0x110000))
+	case 6, 7:
+		return rune(0x10000 + r.Intn(0x10000))
+	default:
+		return rune(r.Intn(0x10000))
+	}
+}
+
 func init() {
 	drivers["c06"] = &driver{
 		header: "From TV Require Import Check.C06.",
-		shard:  400,
+		shard:  1000,
 		n: func(tier string) int {
 			if tier == "quick" {
 				return 6000
@@ -171,6 +222,15 @@ func c06Gen(r *vh.Rand, tier string, n int, emit func(any)) {
 			rec(nil)
 		}
 	}
+	// single runes for the observation correspondence: table boundaries, then n/3 random runes
+	if tier != "search" {
+		for _, a := range c06Boundaries() {
+			emit(c06Input{Text: []rune{a}})
+		}
+	}
+	for i := 0; i < n/3; i++ {
+		emit(c06Input{Text: []rune{c06RandomRune(r)}})
+	}
 	pick := func() rune {
 		switch r.Intn(10) {
 		case 0, 1, 2:
@@ -217,6 +277,16 @@ func c06Codes(t []rune) []int64 {
 	return out
 }
 
+// c06Packed writes every rune as code + 2^24 * r: the observation code computed by the library's lookups (< 2^24) and
+// the code point itself, so that the checker can compare obs_of_rune r (regenerated tables, evaluated in Coq) with it.
+func c06Packed(t []rune) []int64 {
+	out := make([]int64, len(t))
+	for i, r := range t {
+		out[i] = c06Obs(r) + int64(r)*(1<<24)
+	}
+	return out
+}
+
 func c06Run(o *vh.Out, inAny any) {
 	in := inAny.(c06Input)
 	var seg segmenter.Segmenter
@@ -252,14 +322,14 @@ func c06Run(o *vh.Out, inAny any) {
 	}()
 	hist := make([]string, len(in.History))
 	for i, h := range in.History {
-		hist[i] = vh.ZList(c06Codes(h))
+		hist[i] = vh.ZList(c06Packed(h))
 	}
 	a := make([]int64, len(attrs))
 	for i, x := range attrs {
 		a[i] = int64(x)
 	}
 	codes := c06Codes(in.Text)
-	coq := vh.App("mkCase", vh.Z(c06Obs(0)), vh.Z(c06Obs(0x2029)), vh.List(hist), vh.ZList(codes), vh.ZList(a),
+	coq := vh.App("mkCase", vh.Z(c06Obs(0)), vh.Z(c06Obs(0x2029)), vh.List(hist), vh.ZList(c06Packed(in.Text)), vh.ZList(a),
 		vh.List(lines), vh.List(graph), vh.List(word))
 	key := ""
 	if len(in.Text) >= 2 {
